@@ -12,7 +12,7 @@ def run(chk):
             chk.failures.append(core.Failure("harness produced no result (crash)", "recon", "matrix", l, raw, key="crash")); break
         for msg in recon.oracle_c03(c, r):
             chk.failures.append(core.Failure(msg, "recon", "matrix", l, raw, key="c03"))
-        if len(chk.failures) > 10: break
+        if chk.too_many(): break
     return chk.finish(level="proof",
         rule="recon stream (same space as C02) incl. refusal sequences: capacity 0..n with up to capacity+2 losses, data trickling between refusals; "
              "non-trivial = reaches Done, contains a refusal, stores a pivot or eliminates; distinct by case text",
